@@ -233,3 +233,7 @@ pub mod sync;
 pub mod timer;
 
 mod utils;
+
+#[cfg(all(futures_intrusive_verif, feature = "alloc"))]
+#[allow(missing_docs)]
+pub mod verif;
